@@ -595,6 +595,10 @@ class Exec:
     def write(s, frame, p, v):
         c, k = s.slot(frame, p); c[k] = v
 
+    def deref_ref(s, v):
+        while isinstance(v, Ref): v = v.get()
+        return v
+
     def deref(s, v):
         while True:
             if isinstance(v, Ref): v = v.get()
